@@ -1136,7 +1136,10 @@ returnVal.option() ?: return null
                                 )
                             }
                             Type::Slice(_) => {
-                                panic!("Non-primitive slices are not allowed as callback args")
+                                self.errors.push_error(
+                                    "Non-primitive slices are not allowed as callback args".into(),
+                                );
+                                (in_name.clone(), format!("{}: Slice", in_name))
                             }
                             Type::Opaque(_) => (
                                 format!("{}({}, listOf())", in_ty, in_name),
@@ -1214,9 +1217,12 @@ returnVal.option() ?: return null
             ReturnType::Infallible(ok) | ReturnType::Nullable(ok) => {
                 self.gen_infallible_return_type_name(ok)
             }
-            ReturnType::Fallible(_, _) => panic!(
-                "non_option_type_name should only be called for a return type that is optional"
-            ),
+            ReturnType::Fallible(ok, _) => {
+                self.errors.push_error(
+                    "iterator and indexer methods must return an optional or infallible type, not a Result".into(),
+                );
+                self.gen_infallible_return_type_name(ok)
+            }
         };
         let declaration = match method.attrs.special_method {
             Some(SpecialMethod::Iterator) => {
@@ -1240,7 +1246,11 @@ returnVal.option() ?: return null
                                 ),
                             ..
                         }) => self.formatter.fmt_primitive_as_kt(*prim),
-                        _ => panic!("index type must be an integer type"),
+                        _ => {
+                            self.errors
+                                .push_error("index type must be an integer type".into());
+                            "Int"
+                        }
                     };
                     special_methods.indexer_type = Some(IndexerType {
                         index_type: index_type.into(),
@@ -1624,7 +1634,10 @@ returnVal.option() ?: return null
                         )
                     }
                     Type::Slice(_) => {
-                        panic!("Non-primitive slices are not allowed as callback args")
+                        self.errors.push_error(
+                            "Non-primitive slices are not allowed as callback args".into(),
+                        );
+                        (in_name.clone(), format!("{}: Slice", in_name))
                     }
                     Type::Opaque(_) => (
                         format!("{}({}, listOf())", in_ty, in_name),
